@@ -152,7 +152,12 @@ pub fn run<A: Cx>(d: &mut Drv<A>, focus: &str, scale: usize) {
                     d.emit(json!({"op": "gint", "c": c, "path": [r(p, p + k)]}));
                 }
                 d.emit(json!({"op": "gint", "c": c, "path": [step("rf", p - 4, 0), r(4, 4 + full)]}));
+                // longer than a machine word: refused, never truncated
+                d.emit(json!({"op": "gint", "c": c, "path": [r(p, p + full + 1)]}));
+                d.emit(json!({"op": "gint", "c": c, "path": [step("rf", p, 0)]}));
             }
+            d.emit(json!({"op": "gint", "c": c, "path": []}));
+            d.emit(json!({"op": "gint", "c": c, "path": [step("rt", 0, e + 1)]}));
         }
         "c02" => {
             for k in [0usize, 1, 2, 3, 17, 64, 1000, 4000] {
@@ -186,7 +191,11 @@ pub fn run<A: Cx>(d: &mut Drv<A>, focus: &str, scale: usize) {
                     d.emit(json!({"op": "gkmer", "c": c, "path": [r(p, p + k)], "k": k}));
                 }
                 d.emit(json!({"op": "gkmer", "c": c, "path": [r(p, p + 4)], "k": 3}));
+                // a wrong length is an error, however long the slice
+                d.emit(json!({"op": "gkmer", "c": c, "path": [step("rf", p, 0)], "k": full}));
             }
+            d.emit(json!({"op": "gkmer", "c": c, "path": [], "k": 3}));
+            d.emit(json!({"op": "gkmer", "c": c, "path": [step("rt", 0, e + 3)], "k": 3}));
         }
         o => panic!("harness: no giant scenario for {o}"),
     }
